@@ -1,4 +1,1579 @@
-//! C13 monitor (not written yet).
-use crate::ctx::Ctx;
+//! C13 — the text parsers return a result for every input and never panic.
+//!
+//! Every generated input goes through all seven entry points. A result must come back (`Ok`/`Err`,
+//! no panic, no abort, no arithmetic overflow); an `Ok` program / type / init-args is type-checked
+//! (must not panic); an `Err` must render (`to_string()`, `report()`), must not carry invalid UTF-8
+//! and its span must lie inside the input on character boundaries.
+//!
+//! Inputs whose lexing is known to touch undefined behaviour on the pinned tree (a backslash before
+//! a non-ASCII character; raw `\xx` bytes >= 0x80 inside strings) are examined in a forked child so
+//! that an abort is observed (and reported) without losing the worker.
+use super::textgen::{lexer_ub_risk, quote};
+use crate::ctx::{catch, hex, Ctx, PanicInfo};
+use crate::gen::values::gen_char;
+use crate::rng::{hash_str, Rng};
+use candid::types::value::IDLValue;
+use candid::types::{Label, TypeEnv};
+use candid_parser::syntax::{IDLInitArgs, IDLProg, IDLType, IDLTypes};
+use candid_parser::test::Test;
+use candid_parser::token::Token;
+use candid_parser::Error as PErr;
+use lalrpop_util::ParseError;
+use serde_json::json;
+use std::collections::HashSet;
 
-pub fn run(_ctx: &mut Ctx) {}
+pub const ENTRIES: [&str; 7] = [
+    "IDLProg",
+    "IDLType",
+    "IDLTypes",
+    "IDLInitArgs",
+    "Test",
+    "parse_idl_args",
+    "parse_idl_value",
+];
+
+enum Parsed {
+    Prog(IDLProg),
+    Type(IDLType),
+    Types(IDLTypes),
+    Init(IDLInitArgs),
+    Test(#[allow(dead_code)] Test),
+    Args(candid::IDLArgs),
+    Value(IDLValue),
+}
+
+fn parse_entry(e: usize, s: &str) -> Result<Parsed, PErr> {
+    Ok(match e {
+        0 => Parsed::Prog(s.parse::<IDLProg>()?),
+        1 => Parsed::Type(s.parse::<IDLType>()?),
+        2 => Parsed::Types(s.parse::<IDLTypes>()?),
+        3 => Parsed::Init(s.parse::<IDLInitArgs>()?),
+        4 => Parsed::Test(s.parse::<Test>()?),
+        5 => Parsed::Args(candid_parser::parse_idl_args(s)?),
+        _ => Parsed::Value(candid_parser::parse_idl_value(s)?),
+    })
+}
+
+/// The type check that follows a successful parse.
+fn follow_up(p: &Parsed) {
+    match p {
+        Parsed::Prog(prog) => {
+            let mut te = TypeEnv::new();
+            let _ = candid_parser::check_prog(&mut te, prog);
+        }
+        Parsed::Type(t) => {
+            let _ = candid_parser::typing::ast_to_type(&TypeEnv::new(), t);
+        }
+        Parsed::Types(ts) => {
+            for a in &ts.args {
+                let _ = candid_parser::typing::ast_to_type(&TypeEnv::new(), &a.typ);
+            }
+        }
+        Parsed::Init(i) => {
+            let mut te = TypeEnv::new();
+            let _ = candid_parser::typing::check_init_args(&mut te, &TypeEnv::new(), i);
+        }
+        _ => {}
+    }
+}
+
+fn short_loc(loc: &str) -> String {
+    loc.rsplit('/').next().unwrap_or(loc).to_string()
+}
+
+// ---------------------------------------------------------------------------------------
+// input features (for the class label of a signature)
+
+fn has_upper_hex_prefix(s: &str) -> bool {
+    let b = s.as_bytes();
+    b.windows(3)
+        .enumerate()
+        .any(|(i, w)| w[0] == b'0' && w[1] == b'X' && w[2].is_ascii_hexdigit() && (i == 0 || !b[i - 1].is_ascii_alphanumeric() && b[i - 1] != b'_'))
+}
+
+fn has_u32_max(s: &str) -> bool {
+    let t: String = s.chars().filter(|c| *c != '_').collect::<String>().to_ascii_lowercase();
+    t.contains("4294967295") || t.contains("0xffffffff")
+}
+
+fn has_u32_max_minus_1(s: &str) -> bool {
+    let t: String = s.chars().filter(|c| *c != '_').collect::<String>().to_ascii_lowercase();
+    t.contains("4294967294") || t.contains("0xfffffffe")
+}
+
+/// `\xx` with xx >= 0x80 after an unescaped backslash (inside strings this pushes a raw byte).
+fn has_raw_high_byte(s: &str) -> bool {
+    let cs: Vec<char> = s.chars().collect();
+    let mut run = 0usize;
+    for (i, c) in cs.iter().enumerate() {
+        if *c == '\\' {
+            run += 1;
+            continue;
+        }
+        if run % 2 == 1 && matches!(c, '8' | '9' | 'a'..='f' | 'A'..='F') && cs.get(i + 1).map(|x| x.is_ascii_hexdigit()).unwrap_or(false) {
+            return true;
+        }
+        run = 0;
+    }
+    false
+}
+
+pub fn classify(s: &str) -> &'static str {
+    if lexer_ub_risk(s) {
+        "backslash-before-non-ascii"
+    } else if has_upper_hex_prefix(s) {
+        "hex-0X-prefix"
+    } else if has_u32_max(s) {
+        "field-id-u32-max"
+    } else if has_u32_max_minus_1(s) {
+        "field-id-u32-max-minus-1"
+    } else if has_raw_high_byte(s) {
+        "raw-high-byte-escape"
+    } else {
+        "other"
+    }
+}
+
+/// Replace the character after an unescaped backslash by `q` when it is not ASCII (used once the
+/// fork budget is spent: the rest of the input still gets examined in-process).
+fn sanitize(s: &str) -> String {
+    let mut out = String::with_capacity(s.len());
+    let mut run = 0usize;
+    for c in s.chars() {
+        if c == '\\' {
+            run += 1;
+            out.push(c);
+        } else {
+            if run % 2 == 1 && !c.is_ascii() {
+                out.push('q');
+            } else {
+                out.push(c);
+            }
+            run = 0;
+        }
+    }
+    out
+}
+
+// ---------------------------------------------------------------------------------------
+// examination of one input
+
+#[derive(Default)]
+struct Findings {
+    viol: Vec<(String, String)>,
+    counts: Vec<String>,
+    nontrivial: Vec<u64>,
+    /// in a forked child: progress markers go to this fd before each entry point runs
+    marker_fd: Option<i32>,
+}
+
+fn write_fd(fd: i32, s: &str) {
+    let b = s.as_bytes();
+    let mut off = 0;
+    while off < b.len() {
+        let n = unsafe { libc::write(fd, b[off..].as_ptr() as *const libc::c_void, b.len() - off) };
+        if n <= 0 {
+            break;
+        }
+        off += n as usize;
+    }
+}
+
+fn token_strings(t: &Token) -> Option<&str> {
+    match t {
+        Token::Text(s) | Token::Id(s) | Token::Decimal(s) | Token::Hex(s) | Token::Float(s) => Some(s.as_str()),
+        _ => None,
+    }
+}
+
+fn valid_utf8(s: &str) -> bool {
+    std::str::from_utf8(s.as_bytes()).is_ok()
+}
+
+struct ErrInfo {
+    variant: &'static str,
+    span: Option<(usize, usize)>,
+    bad_token: bool,
+}
+
+fn inspect(e: &PErr) -> ErrInfo {
+    match e {
+        PErr::Parse(pe) => match pe {
+            ParseError::User { error } => ErrInfo {
+                variant: "User",
+                span: Some((error.span.start, error.span.end)),
+                bad_token: !valid_utf8(&error.err),
+            },
+            ParseError::InvalidToken { location } => ErrInfo {
+                variant: "InvalidToken",
+                span: Some((*location, *location)),
+                bad_token: false,
+            },
+            ParseError::UnrecognizedEof { location, .. } => ErrInfo {
+                variant: "UnrecognizedEof",
+                span: Some((*location, *location)),
+                bad_token: false,
+            },
+            ParseError::UnrecognizedToken { token, .. } => ErrInfo {
+                variant: "UnrecognizedToken",
+                span: Some((token.0, token.2)),
+                bad_token: token_strings(&token.1).map(|s| !valid_utf8(s)).unwrap_or(false),
+            },
+            ParseError::ExtraToken { token } => ErrInfo {
+                variant: "ExtraToken",
+                span: Some((token.0, token.2)),
+                bad_token: token_strings(&token.1).map(|s| !valid_utf8(s)).unwrap_or(false),
+            },
+        },
+        PErr::Custom(_) => ErrInfo {
+            variant: "Custom",
+            span: None,
+            bad_token: false,
+        },
+        PErr::CandidError(_) => ErrInfo {
+            variant: "CandidError",
+            span: None,
+            bad_token: false,
+        },
+    }
+}
+
+/// Same panic again? (for shrinking)
+fn panics_at(e: usize, s: &str, loc: &str, with_follow_up: bool) -> bool {
+    // never shrink into the lexer's undefined behaviour
+    if lexer_ub_risk(s) {
+        return false;
+    }
+    match catch(|| parse_entry(e, s)) {
+        Err(p) => !with_follow_up && short_loc(&p.location) == loc,
+        Ok(Ok(parsed)) if with_follow_up => match catch(|| follow_up(&parsed)) {
+            Err(p) => short_loc(&p.location) == loc,
+            Ok(()) => false,
+        },
+        _ => false,
+    }
+}
+
+/// Greedy chunk removal (sizes n/2, n/4, … 1) keeping the same panic location.
+fn shrink(e: usize, s: &str, loc: &str, with_follow_up: bool) -> String {
+    let mut cur: Vec<char> = s.chars().collect();
+    if cur.len() > 4000 {
+        return s.to_string();
+    }
+    let mut size = cur.len() / 2;
+    let mut budget = 6000usize;
+    while size >= 1 && budget > 0 {
+        let mut i = 0;
+        let mut changed = false;
+        while i + size <= cur.len() && budget > 0 {
+            let mut cand: Vec<char> = Vec::with_capacity(cur.len() - size);
+            cand.extend_from_slice(&cur[..i]);
+            cand.extend_from_slice(&cur[i + size..]);
+            let cs: String = cand.iter().collect();
+            budget -= 1;
+            if panics_at(e, &cs, loc, with_follow_up) {
+                cur = cand;
+                changed = true;
+            } else {
+                i += size;
+            }
+        }
+        if !changed || size == 1 {
+            if size == 1 && changed {
+                continue;
+            }
+            size /= 2;
+        }
+    }
+    cur.into_iter().collect()
+}
+
+fn coarse_ok_shape(s: &str) -> String {
+    s.split_whitespace()
+        .take(3)
+        .map(|w| {
+            w.chars()
+                .take(8)
+                .map(|c| if c.is_ascii_digit() { '0' } else { c })
+                .collect::<String>()
+        })
+        .collect::<Vec<_>>()
+        .join(" ")
+}
+
+fn examine(input: &str, out: &mut Findings, seen: &mut HashSet<String>, only_entry: Option<usize>) {
+    let class = classify(input);
+    let first_tok = input.len() - input.trim_start().len();
+    for (ei, entry) in ENTRIES.iter().enumerate() {
+        if only_entry.map(|o| o != ei).unwrap_or(false) {
+            continue;
+        }
+        if let Some(fd) = out.marker_fd {
+            write_fd(fd, &format!("ENTRY {entry}\n"));
+        }
+        let panic_violation = |out: &mut Findings, seen: &mut HashSet<String>, p: &PanicInfo, stage: &str, follow: bool| {
+            let loc = short_loc(&p.location);
+            let key = format!("{entry}|{stage}|{loc}|{class}");
+            if !seen.insert(key) {
+                out.counts.push("violations:repeat-panic".into());
+                return;
+            }
+            let small = if stage == "render" { input.to_string() } else { shrink(ei, input, &loc, follow) };
+            let c2 = classify(&small);
+            out.viol.push((
+                format!("panic|{entry}{}|{loc}|{c2}", if stage.is_empty() { String::new() } else { format!("+{stage}") }),
+                format!(
+                    "{entry}{} panicked at {}: {} — shrunk input: {:?} (original: {:?})",
+                    if stage.is_empty() { String::new() } else { format!(" ({stage})") },
+                    p.location,
+                    p.message.lines().next().unwrap_or(""),
+                    small,
+                    input.chars().take(300).collect::<String>()
+                ),
+            ));
+        };
+        match catch(|| parse_entry(ei, input)) {
+            Err(p) => {
+                panic_violation(out, seen, &p, "", false);
+                out.counts.push(format!("result:{entry}:panic"));
+            }
+            Ok(Ok(parsed)) => {
+                out.counts.push(format!("result:{entry}:ok"));
+                if let Err(p) = catch(|| follow_up(&parsed)) {
+                    panic_violation(out, seen, &p, "check", true);
+                }
+                // release builds wrap `id + 1` silently: an unlabeled field after id 2^32-1 gets id 0
+                if let Some(w) = wrapped_ids(&parsed, input) {
+                    out.viol.push((
+                        format!("field-id-wrapped|{entry}|field-id-u32-max"),
+                        format!("{entry} accepted {input:?} giving {w}: the field after id 4294967295 has no representable id, the addition wrapped"),
+                    ));
+                }
+                out.nontrivial.push(hash_str(&format!("{entry}|ok|{}", coarse_ok_shape(input))));
+            }
+            Ok(Err(e)) => {
+                out.counts.push(format!("result:{entry}:err"));
+                let info = inspect(&e);
+                out.counts.push(format!("cover:err:{}", info.variant));
+                let class8 = if has_raw_high_byte(input) { "raw-high-byte-escape" } else { class };
+                if info.bad_token {
+                    out.viol.push((
+                        format!("invalid-utf8-in-error|{entry}|token|{class8}"),
+                        format!(
+                            "{entry} returned a {} error that carries a String which is not valid UTF-8 (rendering it is undefined behaviour); input {:?}",
+                            info.variant, input
+                        ),
+                    ));
+                }
+                let mut msg = String::new();
+                if info.bad_token {
+                    // rendering a `str` that is not UTF-8 is undefined behaviour: left to the Miri lane
+                    out.counts.push("skipped:render-of-invalid-utf8-error".into());
+                    msg = format!("<{} with invalid UTF-8>", info.variant);
+                } else {
+                match catch(|| e.to_string()) {
+                    Err(p) => panic_violation(out, seen, &p, "render", false),
+                    Ok(s) => {
+                        if !valid_utf8(&s) {
+                            out.viol.push((
+                                format!("invalid-utf8-in-error|{entry}|display-output|{class8}"),
+                                format!("{entry}: the rendered error message is not valid UTF-8; input {input:?}"),
+                            ));
+                        } else {
+                            msg = s;
+                        }
+                    }
+                }
+                if let Err(p) = catch(|| {
+                    let _ = e.report();
+                }) {
+                    panic_violation(out, seen, &p, "report", false);
+                }
+                }
+                if let Some((a, b)) = info.span {
+                    if a > b || b > input.len() {
+                        out.viol.push((
+                            format!("span-outside-input|{entry}|{}|{class}", info.variant),
+                            format!("{entry}: error span {a}..{b} for an input of {} bytes: {input:?}", input.len()),
+                        ));
+                    } else if input.get(a..b).is_none() {
+                        out.viol.push((
+                            format!("span-splits-character|{entry}|{}|{class}", info.variant),
+                            format!(
+                                "{entry}: error span {a}..{b} is not on character boundaries of the input (slicing the source there panics): {input:?}"
+                            ),
+                        ));
+                    }
+                }
+                let nontrivial = match info.span {
+                    Some((a, _)) => a > first_tok || (info.variant == "UnrecognizedEof" && a > 0),
+                    None => true,
+                };
+                if nontrivial {
+                    let m: String = msg.chars().filter(|c| !c.is_ascii_digit()).take(40).collect();
+                    out.nontrivial.push(hash_str(&format!("{entry}|err|{m}")));
+                    out.counts.push("cover:past-first-token".into());
+                } else {
+                    out.counts.push("cover:rejected-at-first-token".into());
+                }
+            }
+        }
+    }
+    out.counts.push(format!("cover:class:{class}"));
+}
+
+/// `Some(description)` when a parsed record carries id 0 although the text puts an unlabeled field
+/// right after id 2^32-1 (only possible through wrapping).
+fn wrapped_ids(p: &Parsed, input: &str) -> Option<String> {
+    if !has_u32_max(input) {
+        return None;
+    }
+    fn val(v: &IDLValue) -> Option<String> {
+        match v {
+            IDLValue::Record(fs) => {
+                let has_max = fs.iter().any(|f| matches!(f.id, Label::Id(u32::MAX)));
+                let unnamed_zero = fs.iter().any(|f| matches!(f.id, Label::Unnamed(0)));
+                // Unnamed(0) is legitimate only for a leading unlabeled field; `after_max` guards that
+                if has_max && unnamed_zero {
+                    return Some(format!("record with ids {:?}", fs.iter().map(|f| f.id.get_id()).collect::<Vec<_>>()));
+                }
+                fs.iter().find_map(|f| val(&f.val))
+            }
+            IDLValue::Opt(x) => val(x),
+            IDLValue::Vec(xs) => xs.iter().find_map(val),
+            IDLValue::Variant(x) => val(&x.0.val),
+            _ => None,
+        }
+    }
+    fn ty(t: &IDLType) -> Option<String> {
+        match t {
+            IDLType::RecordT(fs) => {
+                let has_max = fs.iter().any(|f| matches!(f.label, Label::Id(u32::MAX)));
+                let unnamed_zero = fs.iter().any(|f| matches!(f.label, Label::Unnamed(0)));
+                if has_max && unnamed_zero {
+                    return Some(format!("record type with ids {:?}", fs.iter().map(|f| f.label.get_id()).collect::<Vec<_>>()));
+                }
+                fs.iter().find_map(|f| ty(&f.typ))
+            }
+            IDLType::OptT(x) | IDLType::VecT(x) => ty(x),
+            IDLType::VariantT(fs) => fs.iter().find_map(|f| ty(&f.typ)),
+            _ => None,
+        }
+    }
+    // only the dedicated sentences `record { MAX <sep> x ; y }` qualify: the unlabeled field must come
+    // after the explicit maximal id in the text
+    let after_max = {
+        let t: String = input.chars().filter(|c| *c != '_').collect::<String>().to_ascii_lowercase();
+        let pos = t.find("4294967295").or_else(|| t.find("0xffffffff"))?;
+        !t[..pos].contains(';') && t[..pos].trim_end().ends_with('{')
+    };
+    if !after_max {
+        return None;
+    }
+    match p {
+        Parsed::Args(a) => a.args.iter().find_map(val),
+        Parsed::Value(v) => val(v),
+        Parsed::Type(t) => ty(t),
+        Parsed::Types(ts) => ts.args.iter().find_map(|a| ty(&a.typ)),
+        _ => None,
+    }
+}
+
+fn apply(ctx: &mut Ctx, f: Findings, input: &str, family: &str) {
+    for c in f.counts {
+        ctx.count(&c);
+    }
+    for h in f.nontrivial {
+        ctx.nontrivial(h);
+    }
+    for (sig, what) in f.viol {
+        ctx.violation(&sig, &what, json!({"input": input, "family": family}));
+    }
+}
+
+/// Examine in a separate process (the worker binary itself, started with the input in an
+/// environment variable): an abort of the code under test is observed as the child's death by
+/// signal and reported, and the worker survives. `posix_spawn` keeps this cheap (a `fork` of the
+/// worker costs several ms here and much more under load).
+fn examine_isolated(ctx: &mut Ctx, input: &str, family: &str, _seen: &mut HashSet<String>, only_entry: Option<usize>) {
+    use std::os::unix::process::ExitStatusExt;
+    use std::process::{Command, Stdio};
+    let Ok(exe) = std::env::current_exe() else {
+        ctx.count("excluded:no-current-exe");
+        return;
+    };
+    let tmp = std::env::temp_dir().join(format!("verif-c13-child-{}-{}.json", std::process::id(), ctx.case));
+    let r = Command::new(exe)
+        .arg("C13")
+        .args(["--budget", "20", "--max-cases", "1", "--lane", &ctx.lane, "--out"])
+        .arg(&tmp)
+        .env(CHILD_INPUT, hex(input.as_bytes()))
+        .env(CHILD_ENTRY, only_entry.map(|e| e.to_string()).unwrap_or_else(|| "all".into()))
+        .stdin(Stdio::null())
+        .stdout(Stdio::null())
+        .stderr(Stdio::piped())
+        .output();
+    let out = match r {
+        Ok(o) => o,
+        Err(_) => {
+            ctx.count("excluded:spawn-failed");
+            return;
+        }
+    };
+    let err = String::from_utf8_lossy(&out.stderr);
+    let last_entry = err
+        .lines()
+        .filter_map(|l| l.strip_prefix("ENTRY "))
+        .last()
+        .unwrap_or("?")
+        .to_string();
+    let class = classify(input);
+    let mut f = Findings::default();
+    if let Some(sig) = out.status.signal() {
+        f.viol.push((
+            format!("abort|{last_entry}|signal={sig}|{class}"),
+            format!(
+                "{last_entry} did not return: the process was killed by signal {sig} (6 = SIGABRT: non-unwinding panic raised by a std UB check, or abort) on input {input:?}; stderr: {}",
+                err.lines().filter(|l| !l.starts_with("ENTRY ")).take(3).collect::<Vec<_>>().join(" / ")
+            ),
+        ));
+        ctx.count(&format!("result:{last_entry}:abort"));
+    } else {
+        match std::fs::read_to_string(&tmp).ok().and_then(|s| serde_json::from_str::<serde_json::Value>(&s).ok()) {
+            Some(v) => {
+                for x in v["violations"].as_array().cloned().unwrap_or_default() {
+                    f.viol.push((x["sig"].as_str().unwrap_or("").to_string(), x["what"].as_str().unwrap_or("").to_string()));
+                }
+                if let Some(cs) = v["counters"].as_object() {
+                    for (k, n) in cs {
+                        if k.starts_with("family:") || k == "violations_seen" {
+                            continue;
+                        }
+                        for _ in 0..n.as_u64().unwrap_or(0).min(64) {
+                            f.counts.push(k.clone());
+                        }
+                    }
+                }
+                for h in v["nontrivial"].as_array().cloned().unwrap_or_default() {
+                    f.nontrivial.push(h.as_u64().unwrap_or(0));
+                }
+            }
+            None => f.viol.push((
+                format!("child-incomplete|{last_entry}|exit={:?}|{class}", out.status.code()),
+                format!("examination in the child process ended without a result (exit {:?}) on input {input:?}", out.status.code()),
+            )),
+        }
+    }
+    let _ = std::fs::remove_file(&tmp);
+    ctx.count("cover:isolated-in-child");
+    apply(ctx, f, input, family);
+}
+
+const CHILD_INPUT: &str = "VERIF_C13_CHILD_INPUT";
+const CHILD_ENTRY: &str = "VERIF_C13_CHILD_ENTRY";
+
+fn unhex(s: &str) -> Option<Vec<u8>> {
+    if s.len() % 2 != 0 {
+        return None;
+    }
+    (0..s.len() / 2).map(|i| u8::from_str_radix(&s[2 * i..2 * i + 2], 16).ok()).collect()
+}
+
+/// Child side of `examine_isolated`.
+fn child_main(ctx: &mut Ctx, input_hex: &str) {
+    let Some(input) = unhex(input_hex).and_then(|b| String::from_utf8(b).ok()) else {
+        return;
+    };
+    let only_entry = std::env::var(CHILD_ENTRY).ok().and_then(|s| s.parse::<usize>().ok());
+    ctx.max_violations = 120;
+    ctx.cases("child", 1.0, |ctx, _rng| {
+        let mut f = Findings {
+            marker_fd: Some(2),
+            ..Default::default()
+        };
+        let mut seen = HashSet::new();
+        examine(&input, &mut f, &mut seen, only_entry);
+        apply(ctx, f, &input, "child");
+    });
+}
+
+/// A spawn is ~15 ms on an idle machine but around a second when every core runs a worker, so
+/// children are rationed: shard 0 replays the seven UB witnesses (one per entry point) and a few
+/// generated inputs of that class in children; every other input of the class is examined
+/// in-process with the offending character replaced (`\é` -> `\q`, still an unknown escape).
+const SPAWN_BUDGET: u32 = 4;
+
+struct State {
+    seen: HashSet<String>,
+    forks: u32,
+}
+
+fn check_input(ctx: &mut Ctx, input: &str, family: &str, st: &mut State) {
+    let t0 = std::time::Instant::now();
+    check_input_inner(ctx, input, family, st);
+    let ms = t0.elapsed().as_secs_f64() * 1e3;
+    ctx.max("slowest-input-ms", ms);
+    if ms > 100.0 && std::env::var("VERIF_TRACE").is_ok() {
+        eprintln!("SLOW {ms:.0} ms {family} {input:?}");
+    }
+}
+
+fn check_input_inner(ctx: &mut Ctx, input: &str, family: &str, st: &mut State) {
+    if lexer_ub_risk(input) {
+        if (ctx.shard == 0 && st.forks < SPAWN_BUDGET) || ctx.only.is_some() {
+            // an abort ends the child: one entry point per child, a different one each time
+            st.forks += 1;
+            let e = (hash_str(input) % 7) as usize;
+            examine_isolated(ctx, input, family, &mut st.seen, Some(e));
+        } else {
+            let clean = sanitize(input);
+            ctx.count("cover:sanitized-after-fork-budget");
+            let mut f = Findings::default();
+            examine(&clean, &mut f, &mut st.seen, None);
+            apply(ctx, f, &clean, family);
+        }
+    } else {
+        let mut f = Findings::default();
+        examine(input, &mut f, &mut st.seen, None);
+        apply(ctx, f, input, family);
+    }
+    ctx.sample(|| json!({"family": family, "input": input}));
+}
+
+// ---------------------------------------------------------------------------------------
+// generators
+
+const KEYWORDS: &[&str] = &[
+    "null",
+    "vec",
+    "record",
+    "variant",
+    "func",
+    "service",
+    "oneway",
+    "query",
+    "composite_query",
+    "blob",
+    "type",
+    "import",
+    "opt",
+    "principal",
+    "true",
+    "false",
+    "nat",
+    "nat8",
+    "nat16",
+    "nat32",
+    "nat64",
+    "int",
+    "int8",
+    "int16",
+    "int32",
+    "int64",
+    "float32",
+    "float64",
+    "bool",
+    "text",
+    "reserved",
+    "empty",
+    "assert",
+];
+const PUNCT: &[&str] = &["=", "(", ")", "{", "}", ";", ",", ".", ":", "->", "==", "!=", "!:"];
+const JUNK: &[&str] = &[
+    "+", "-", "*", "/", "!", "<", ">", "[", "]", "@", "#", "$", "%", "^", "&", "|", "~", "?", "'", "`", "\\", "-->", "=>", "::", "..", "é", "名",
+    "\u{0}", "\u{feff}", "\u{a0}", "\u{2028}",
+];
+const IDS: &[&str] = &[
+    "a", "b", "T0", "T1", "T2", "T3", "_x", "x1", "_", "__", "A_b_9", "nat_", "opt_", "Vec", "NULL", "True", "assertx", "élan", "aé", "x\u{301}",
+    "a_very_long_identifier_that_goes_on_and_on_and_on_0123456789",
+];
+pub const NUMERALS: &[&str] = &[
+    "0",
+    "1",
+    "42",
+    "00",
+    "007",
+    "1_000",
+    "1__0",
+    "1_",
+    "_1",
+    "4294967294",
+    "4294967295",
+    "4_294_967_295",
+    "4294967296",
+    "0xFFFFFFFF",
+    "0xffff_ffff",
+    "0xFFFFFFFE",
+    "0x100000000",
+    "0XFFFFFFFF",
+    "0X1F",
+    "0X0",
+    "0Xff",
+    "0x1F",
+    "0x1f",
+    "0x0",
+    "0x_",
+    "0x",
+    "0X",
+    "0x1_",
+    "0x_1",
+    "0xg",
+    "0x1p3",
+    "0x1.8",
+    "0b1",
+    "0o7",
+    "18446744073709551615",
+    "18446744073709551616",
+    "340282366920938463463374607431768211456",
+    "1234567890123456789012345678901234567890",
+    "1e400",
+    "1e-400",
+    "-1e400",
+    "1e0",
+    "1E5",
+    "1e",
+    "1e+",
+    "1e+5",
+    "1e-5",
+    "1.e5",
+    "1.5e",
+    ".5",
+    "5.",
+    ".",
+    "..",
+    "1.2.3",
+    "1..2",
+    "0.0",
+    "-0.0",
+    "0e0",
+    "1_0.0_1",
+    "1._5",
+    "+1",
+    "-1",
+    "+-1",
+    "--1",
+    "- 1",
+    "+ 0x10",
+    "-0x10",
+    "-0X10",
+    "1e1_0",
+    "9999999999999999999999999999999999999999e9999999999",
+];
+
+const ESCAPES: &[&str] = &[
+    "\\n",
+    "\\r",
+    "\\t",
+    "\\\\",
+    "\\\"",
+    "\\'",
+    "\\u{41}",
+    "\\u{0}",
+    "\\u{10FFFF}",
+    "\\u{10ffff}",
+    "\\u{1_0}",
+    "\\u{00000041}",
+    "\\u{}",
+    "\\u{_}",
+    "\\u{110000}",
+    "\\u{d800}",
+    "\\u{DFFF}",
+    "\\u{FFFFFFFFFF}",
+    "\\u{ffffffff}",
+    "\\u{g}",
+    "\\u{41",
+    "\\u41",
+    "\\u",
+    "\\U{41}",
+    "\\q",
+    "\\0",
+    "\\00",
+    "\\01",
+    "\\0a",
+    "\\7f",
+    "\\x41",
+    "\\a",
+    "\\b",
+    "\\e0",
+    "\\e0\\a0",
+    "\\e0\\a0\\80",
+    "\\ff",
+    "\\FF",
+    "\\fe\\ff",
+    "\\c3\\28",
+    "\\c3\\a9",
+    "\\c3",
+    "\\80",
+    "\\bf",
+    "\\ed\\a0\\80",
+    "\\f4\\90\\80\\80",
+    "\\f0\\9f\\98\\80",
+    "\\c0\\80",
+    "\\4",
+    "\\g0",
+    "\\ ",
+    "\\\n",
+    "\\é",
+    "\\名",
+    "\\\u{1F600}",
+    "\\\u{80}",
+    "\\\u{7f}",
+    "\\\u{0}",
+];
+
+fn gen_string_body(rng: &mut Rng) -> String {
+    let n = match rng.below(6) {
+        0 => 0,
+        1 | 2 => 1,
+        _ => 1 + rng.usize(5),
+    };
+    let mut s = String::new();
+    for _ in 0..n {
+        match rng.below(10) {
+            0..=4 => s.push_str(*rng.pick(ESCAPES)),
+            5 => s.push_str(*rng.pick(&["a", "abc", "0", "1f", "e0", "x", " ", "aaaaa-aa", "2vxsx-fae"])),
+            6 => {
+                let c = gen_char(rng);
+                if c != '"' && c != '\\' {
+                    s.push(c);
+                }
+            }
+            7 => s.push_str(*rng.pick(&["é", "名前", "\u{1F600}", "\u{301}", "\u{feff}", "\n", "\t", "\u{0}", "\u{7f}", "\u{85}"])),
+            8 => s.push_str(*rng.pick(&["/*", "*/", "//", "{", "}", "(", ";", "'"])),
+            _ => s.push_str(&rng.below(100000).to_string()),
+        }
+    }
+    s
+}
+
+fn gen_string_lit(rng: &mut Rng) -> String {
+    let body = gen_string_body(rng);
+    match rng.below(20) {
+        0 => format!("\"{body}"),   // unterminated
+        1 => format!("\"{body}\\"), // ends in a lone backslash: `"…\"` escapes the quote
+        _ => format!("\"{body}\""),
+    }
+}
+
+fn gen_comment(rng: &mut Rng) -> String {
+    match rng.below(12) {
+        0 => "// c\n".into(),
+        1 => "//\n".into(),
+        2 => "// é 名 \u{1F600}\n".into(),
+        3 => "/* c */".into(),
+        4 => "/**/".into(),
+        5 => "/* /* nested */ */".into(),
+        6 => "/* /* unbalanced */".into(),
+        7 => "/*".into(),
+        8 => "*/".into(),
+        9 => "/*/".into(),
+        10 => "/* \" */".into(),
+        _ => "// no newline at end".into(),
+    }
+}
+
+fn gen_token(rng: &mut Rng) -> String {
+    match rng.below(16) {
+        0..=2 => rng.pick(KEYWORDS).to_string(),
+        3..=6 => rng.pick(PUNCT).to_string(),
+        7 | 8 => rng.pick(IDS).to_string(),
+        9 | 10 => rng.pick(NUMERALS).to_string(),
+        11 | 12 => gen_string_lit(rng),
+        13 => gen_comment(rng),
+        14 => rng.pick(JUNK).to_string(),
+        _ => rng.below(1 << 33).to_string(),
+    }
+}
+
+struct Sent<'a> {
+    rng: &'a mut Rng,
+    t: Vec<String>,
+}
+
+impl Sent<'_> {
+    fn p(&mut self, s: &str) {
+        self.t.push(s.to_string());
+    }
+    fn name(&mut self) {
+        let s = match self.rng.below(8) {
+            0..=3 => self.rng.pick(IDS).to_string(),
+            4 => self.rng.pick(&["nat", "text", "bool", "int8", "reserved", "empty", "assert"]).to_string(),
+            5 => quote(&super::textgen::gen_label(self.rng)),
+            6 => gen_string_lit(self.rng),
+            _ => quote(*self.rng.pick(KEYWORDS)),
+        };
+        self.t.push(s);
+    }
+    fn field_id(&mut self) {
+        let s = match self.rng.below(4) {
+            0 => self.rng.below(10).to_string(),
+            1 => self.rng.pick(NUMERALS).to_string(),
+            2 => format!("0x{:x}", self.rng.below(1 << 20)),
+            _ => self.rng.below(1 << 32).to_string(),
+        };
+        self.t.push(s);
+    }
+    fn principal_text(&mut self) {
+        let s = match self.rng.below(6) {
+            0 => "\"aaaaa-aa\"".to_string(),
+            1 => "\"2vxsx-fae\"".to_string(),
+            2 => "\"w7x7r-cok77-xa\"".to_string(),
+            3 => "\"\"".to_string(),
+            4 => "\"AAAAA-AA\"".to_string(),
+            _ => gen_string_lit(self.rng),
+        };
+        self.t.push(s);
+    }
+    fn number(&mut self) {
+        if self.rng.chance(1, 4) {
+            let s = *self.rng.pick(&["+", "-"]);
+            self.p(s);
+        }
+        let s = match self.rng.below(5) {
+            0 => self.rng.below(1000).to_string(),
+            1 | 2 => self.rng.pick(NUMERALS).to_string(),
+            3 => format!("{}.{}", self.rng.below(100), self.rng.below(100)),
+            _ => format!("0x{:X}", self.rng.next() >> self.rng.below(64)),
+        };
+        self.t.push(s);
+    }
+    fn value(&mut self, d: usize) {
+        let k = if d == 0 { self.rng.below(7) } else { self.rng.below(16) };
+        match k {
+            0 => {
+                let b = *self.rng.pick(&["true", "false"]);
+                self.p(b)
+            }
+            1 | 2 => self.number(),
+            3 => {
+                let s = gen_string_lit(self.rng);
+                self.t.push(s)
+            }
+            4 => {
+                self.p("blob");
+                let s = gen_string_lit(self.rng);
+                self.t.push(s)
+            }
+            5 => self.p("null"),
+            6 => {
+                self.p("principal");
+                self.principal_text()
+            }
+            7 => {
+                self.p("opt");
+                self.value(d - 1)
+            }
+            8 => {
+                self.p("vec");
+                self.p("{");
+                for _ in 0..self.rng.usize(4) {
+                    self.annval(d - 1);
+                    self.p(";");
+                }
+                if self.rng.bool() {
+                    self.annval(d - 1);
+                }
+                self.p("}")
+            }
+            9 | 10 => {
+                self.p("record");
+                self.p("{");
+                for _ in 0..self.rng.usize(4) {
+                    match self.rng.below(3) {
+                        0 => {
+                            self.field_id();
+                            self.p("=")
+                        }
+                        1 => {
+                            self.name();
+                            self.p("=")
+                        }
+                        _ => {}
+                    }
+                    self.annval(d - 1);
+                    self.p(";");
+                }
+                self.p("}")
+            }
+            11 => {
+                self.p("variant");
+                self.p("{");
+                if self.rng.bool() {
+                    self.name()
+                } else {
+                    self.field_id()
+                }
+                if self.rng.chance(2, 3) {
+                    self.p("=");
+                    self.annval(d - 1);
+                }
+                self.p("}")
+            }
+            12 => {
+                self.p("service");
+                self.principal_text()
+            }
+            13 => {
+                self.p("func");
+                self.principal_text();
+                self.p(".");
+                self.name()
+            }
+            _ => {
+                self.p("(");
+                self.annval(d - 1);
+                self.p(")")
+            }
+        }
+    }
+    fn annval(&mut self, d: usize) {
+        self.value(d);
+        if self.rng.chance(1, 4) {
+            self.p(":");
+            self.typ(d.min(2));
+        }
+    }
+    fn args(&mut self, d: usize) {
+        self.p("(");
+        let n = self.rng.usize(4);
+        for i in 0..n {
+            self.annval(d);
+            if i + 1 < n || self.rng.chance(1, 5) {
+                self.p(",");
+            }
+        }
+        self.p(")");
+    }
+    fn typ(&mut self, d: usize) {
+        let k = if d == 0 { self.rng.below(4) } else { self.rng.below(14) };
+        match k {
+            0 | 1 => {
+                let s = *self
+                    .rng
+                    .pick(&["nat", "int", "nat8", "int64", "float32", "float64", "bool", "text", "null", "reserved", "empty", "principal", "blob"]);
+                self.p(s)
+            }
+            2 | 3 => {
+                let s = *self.rng.pick(&["T0", "T1", "T2", "T3", "a", "undefined_name"]);
+                self.p(s)
+            }
+            4 | 5 => {
+                self.p("opt");
+                self.typ(d - 1)
+            }
+            6 => {
+                self.p("vec");
+                self.typ(d - 1)
+            }
+            7 | 8 => {
+                self.p("record");
+                self.p("{");
+                for _ in 0..self.rng.usize(4) {
+                    match self.rng.below(3) {
+                        0 => {
+                            self.field_id();
+                            self.p(":")
+                        }
+                        1 => {
+                            self.name();
+                            self.p(":")
+                        }
+                        _ => {}
+                    }
+                    self.typ(d - 1);
+                    self.p(";");
+                }
+                self.p("}")
+            }
+            9 | 10 => {
+                self.p("variant");
+                self.p("{");
+                for _ in 0..self.rng.usize(4) {
+                    if self.rng.bool() {
+                        self.name()
+                    } else {
+                        self.field_id()
+                    }
+                    if self.rng.chance(2, 3) {
+                        self.p(":");
+                        self.typ(d - 1);
+                    }
+                    self.p(";");
+                }
+                self.p("}")
+            }
+            11 => {
+                self.p("func");
+                self.functyp(d - 1)
+            }
+            _ => {
+                self.p("service");
+                self.actor(d - 1)
+            }
+        }
+    }
+    fn tup(&mut self, d: usize) {
+        self.p("(");
+        let n = self.rng.usize(3);
+        for i in 0..n {
+            if self.rng.chance(1, 4) {
+                self.name();
+                self.p(":");
+            }
+            self.typ(d);
+            if i + 1 < n || self.rng.chance(1, 6) {
+                self.p(",");
+            }
+        }
+        self.p(")");
+    }
+    fn functyp(&mut self, d: usize) {
+        self.tup(d);
+        self.p("->");
+        self.tup(d);
+        for _ in 0..*self.rng.pick(&[0usize, 0, 0, 1, 1, 2]) {
+            let m = *self.rng.pick(&["query", "oneway", "composite_query"]);
+            self.p(m);
+        }
+    }
+    fn actor(&mut self, d: usize) {
+        self.p("{");
+        for _ in 0..self.rng.usize(4) {
+            self.name();
+            self.p(":");
+            if self.rng.chance(1, 4) {
+                let s = *self.rng.pick(&["T0", "T1", "f", "undefined_name"]);
+                self.p(s);
+            } else {
+                self.functyp(d);
+            }
+            self.p(";");
+        }
+        self.p("}");
+    }
+    fn defs(&mut self, d: usize) {
+        for i in 0..self.rng.usize(5) {
+            match self.rng.below(8) {
+                0 => {
+                    self.p("import");
+                    let s = gen_string_lit(self.rng);
+                    self.t.push(s)
+                }
+                1 => {
+                    self.p("import");
+                    self.p("service");
+                    let s = gen_string_lit(self.rng);
+                    self.t.push(s)
+                }
+                _ => {
+                    self.p("type");
+                    let n = if self.rng.chance(1, 6) {
+                        self.rng.pick(IDS).to_string()
+                    } else {
+                        format!("T{i}")
+                    };
+                    self.t.push(n);
+                    self.p("=");
+                    self.typ(d)
+                }
+            }
+            self.p(";");
+        }
+    }
+    fn prog(&mut self, d: usize) {
+        self.defs(d);
+        if self.rng.chance(2, 3) {
+            self.p("service");
+            if self.rng.chance(1, 3) {
+                self.p("S");
+            }
+            self.p(":");
+            if self.rng.chance(1, 3) {
+                self.tup(d);
+                self.p("->");
+            }
+            if self.rng.chance(1, 4) {
+                let s = *self.rng.pick(&["T0", "T1", "undefined_name"]);
+                self.p(s);
+            } else {
+                self.actor(d);
+            }
+            if self.rng.bool() {
+                self.p(";");
+            }
+        }
+    }
+    fn init(&mut self, d: usize) {
+        self.defs(d);
+        self.tup(d);
+    }
+    fn test(&mut self, d: usize) {
+        self.defs(d);
+        for _ in 0..1 + self.rng.usize(3) {
+            let a = *self.rng.pick(&["assert", "assert", "assert", "asert", "type"]);
+            self.p(a);
+            self.input();
+            match self.rng.below(4) {
+                0 => self.p(":"),
+                1 => self.p("!:"),
+                2 => {
+                    self.p("==");
+                    self.input();
+                    self.p(":")
+                }
+                _ => {
+                    self.p("!=");
+                    self.input();
+                    self.p(":")
+                }
+            }
+            self.tup(d);
+            if self.rng.bool() {
+                let s = gen_string_lit(self.rng);
+                self.t.push(s);
+            }
+            self.p(";");
+        }
+    }
+    fn input(&mut self) {
+        if self.rng.bool() {
+            self.p("blob");
+        }
+        let s = match self.rng.below(4) {
+            0 => "\"DIDL\\00\\00\"".to_string(),
+            1 => "\"(1, \\\"a\\\")\"".to_string(),
+            _ => gen_string_lit(self.rng),
+        };
+        self.t.push(s);
+    }
+}
+
+fn join(rng: &mut Rng, toks: &[String]) -> String {
+    let mode = rng.below(10);
+    let mut s = String::new();
+    for (i, t) in toks.iter().enumerate() {
+        if i > 0 {
+            match mode {
+                0 => s.push('\n'),
+                1 => {
+                    if rng.chance(1, 6) {
+                        s.push_str(&gen_comment(rng));
+                        s.push(' ');
+                    } else {
+                        s.push(' ')
+                    }
+                }
+                2 => {
+                    if rng.chance(1, 3) {
+                        s.push_str("\r\n\t ")
+                    } else {
+                        s.push(' ')
+                    }
+                }
+                3 => {
+                    // no separator where both neighbours are punctuation-like
+                    let prev = toks[i - 1].chars().last().unwrap_or(' ');
+                    let next = t.chars().next().unwrap_or(' ');
+                    if prev.is_alphanumeric() && next.is_alphanumeric() {
+                        s.push(' ')
+                    }
+                }
+                4 if rng.chance(1, 8) => {} // tokens glued together
+                _ => s.push(' '),
+            }
+        }
+        s.push_str(t);
+    }
+    s
+}
+
+fn mutate(rng: &mut Rng, toks: &mut Vec<String>) -> &'static str {
+    if toks.is_empty() {
+        toks.push(gen_token(rng));
+        return "insert";
+    }
+    let i = rng.usize(toks.len());
+    match rng.below(6) {
+        0 => {
+            toks.remove(i);
+            "delete"
+        }
+        1 => {
+            let t = toks[i].clone();
+            toks.insert(i, t);
+            "duplicate"
+        }
+        2 => {
+            toks[i] = gen_token(rng);
+            "replace"
+        }
+        3 => {
+            if i + 1 < toks.len() {
+                toks.swap(i, i + 1);
+            }
+            "swap"
+        }
+        4 => {
+            toks.insert(i, gen_token(rng));
+            "insert"
+        }
+        _ => {
+            toks.truncate(i);
+            "truncate"
+        }
+    }
+}
+
+fn sentence(rng: &mut Rng, kind: u64) -> Vec<String> {
+    let d = 1 + rng.usize(3);
+    let mut s = Sent { rng, t: Vec::new() };
+    match kind {
+        0 => s.args(d),
+        1 => s.value(d),
+        2 => s.typ(d),
+        3 => s.tup(d),
+        4 => s.prog(d),
+        5 => s.init(d),
+        _ => s.test(d),
+    }
+    s.t
+}
+
+fn numeral_templates(rng: &mut Rng) -> String {
+    let n = rng.pick(NUMERALS).to_string();
+    let m = rng.pick(NUMERALS).to_string();
+    match rng.below(28) {
+        0 => format!("({n})"),
+        1 => format!("(-{n})"),
+        2 => format!("({n} : nat)"),
+        3 => format!("({n} : int8)"),
+        4 => format!("({n} : float32)"),
+        5 => format!("record {{ {n} = 1 }}"),
+        6 => format!("record {{ {n} = 1; 2 }}"),
+        7 => format!("(record {{ {n} = 1; 2; 3 }})"),
+        8 => format!("record {{ 1; {n} = 1; 2 }}"),
+        9 => format!("variant {{ {n} }}"),
+        10 => format!("variant {{ {n} = {m} }}"),
+        11 => format!("record {{ {n} : nat }}"),
+        12 => format!("record {{ {n} : nat; text }}"),
+        13 => format!("(record {{ {n} : nat; text }})"),
+        14 => format!("variant {{ {n} }}"),
+        15 => format!("variant {{ {n} : nat; {m} }}"),
+        16 => format!("vec {{ {n}; {m} }}"),
+        17 => format!("({n}.{m})"),
+        18 => format!("({n}e{m})"),
+        19 => format!("({n}, {m})"),
+        20 => format!("type T = record {{ {n} : nat; {m} : text; bool }}; service : {{ f : (T) -> () }}"),
+        21 => format!("(vec {{ {n}; {m} }} : vec nat8)"),
+        22 => format!("(opt {n} : opt nat16)"),
+        23 => format!("(record {{ {n} = {m} }} : record {{ {n} : int }})"),
+        24 => format!("assert blob \"DIDL\" : (record {{ {n} : nat; nat }})"),
+        25 => format!("type T = variant {{ {n}; {m} : nat }}; (T)"),
+        26 => format!("{n}"),
+        _ => format!("(func \"aaaaa-aa\".{n})"),
+    }
+}
+
+fn escape_templates(rng: &mut Rng) -> String {
+    let s = gen_string_lit(rng);
+    match rng.below(22) {
+        0 => format!("({s})"),
+        1 => format!("(blob {s})"),
+        2 => format!("record {{ {s} = 1 }}"),
+        3 => format!("(variant {{ {s} }})"),
+        4 => format!("(variant {{ {s} = {s} }})"),
+        5 => format!("record {{ {s} : nat }}"),
+        6 => format!("variant {{ {s}; {s} : text }}"),
+        7 => format!("service : {{ {s} : () -> () }}"),
+        8 => format!("(func \"aaaaa-aa\".{s})"),
+        9 => format!("import {s}; service : {{}}"),
+        10 => format!("import service {s};"),
+        11 => format!("(principal {s})"),
+        12 => format!("(service {s})"),
+        13 => format!("assert {s} : ()"),
+        14 => format!("assert blob {s} == {s} : () {s}"),
+        15 => format!("assert {s} !: (text) {s};"),
+        16 => format!("({s} : text)"),
+        17 => format!("(1 {s})"),
+        18 => format!("{s}"),
+        19 => format!("(func {s}.{s})"),
+        20 => format!("type T = service {{ {s} : (a : nat, {s} : text) -> () query }}; (T)"),
+        _ => format!("vec {{ {s}; {s} }}"),
+    }
+}
+
+fn unterminated(rng: &mut Rng) -> String {
+    let kind = rng.below(7);
+    let toks = sentence(&mut rng.fork(), kind);
+    let base = join(rng, &toks);
+    match rng.below(12) {
+        0 => format!("{base} \"abc"),
+        1 => format!("{base} /* abc"),
+        2 => format!("/* /* */ {base}"),
+        3 => format!("/* a /* b */ c */ {base}"),
+        4 => format!("{base} // trailing"),
+        5 => format!("// leading\n{base}"),
+        6 => format!("/* é */ {base} /* 名 */"),
+        7 => format!("*/ {base}"),
+        8 => format!("{base} \"\\"),
+        9 => {
+            // doc comments with blank lines in front of fields (trivia bookkeeping)
+            format!("// doc\n\n// doc2 é\ntype T = record {{\n  // field doc\n\n  // again\n  a : nat; /* block */ // tail\n  b : text;\n}};\n// actor doc\nservice : {{\n  // m\n  f : (T) -> ();\n}}")
+        }
+        10 => format!("{}{}", "/*".repeat(1 + rng.usize(200)), "*/".repeat(rng.usize(200))),
+        _ => format!("\"{}", "\\\"".repeat(rng.usize(50))),
+    }
+}
+
+fn deep(rng: &mut Rng) -> String {
+    let n = *rng.pick(&[1usize, 2, 10, 50, 100, 127, 128]);
+    match rng.below(14) {
+        0 => format!("{}nat", "opt ".repeat(n)),
+        1 => format!("{}nat", "vec ".repeat(n)),
+        2 => format!("{}nat{}", "record { a : ".repeat(n), " }".repeat(n)),
+        3 => format!("{}nat{}", "variant { 0 : ".repeat(n), " }".repeat(n)),
+        4 => format!("({}1{})", "(".repeat(n), ")".repeat(n)),
+        5 => format!("({}1)", "opt ".repeat(n)),
+        6 => format!("({}1{})", "vec { ".repeat(n), " }".repeat(n)),
+        7 => format!("({}1{})", "record { ".repeat(n), " }".repeat(n)),
+        8 => format!("({}1{})", "variant { a = ".repeat(n), " }".repeat(n)),
+        9 => format!("{}(){}", "func (".repeat(n), ") -> ()".repeat(n)),
+        10 => format!("{}{}", "service { f : (".repeat(n), ") -> () }".repeat(n)),
+        11 => format!("type T = {}T{}; service : {{ f : (T) -> (T) }}", "record { x : opt ".repeat(n), " }".repeat(n)),
+        12 => format!("({}1{} : {}nat)", "opt (".repeat(n), ")".repeat(n), "opt ".repeat(n)),
+        _ => format!("({}1{})", "record { 5 = ".repeat(n), "; 7 }".repeat(n)),
+    }
+}
+
+/// Inputs known to matter on the pinned tree (regression witnesses), one per case number.
+const WITNESSES: &[&str] = &[
+    "(0X1F)",
+    "0X1F",
+    "(-0X10)",
+    "record { 4294967295 = 1 }",
+    "(record { 4294967295 = 1; 2 })",
+    "record { 4294967295 : nat }",
+    "record { 4294967295 : nat; text }",
+    "record { 0xFFFFFFFF : nat; text }",
+    "(record { 0xffff_ffff = 1; 2 })",
+    "(1 \"\\e0\")",
+    "(\"\\e0\" 1)",
+    "record { \"\\ff\" }",
+    "import \"\\c3\\28\" 1",
+    "type T = record { 4294967295 : nat; text }; service : {}",
+    "(null : opt record { 4294967295 : nat })",
+    "(null : opt record { 4294967294 : nat; text })",
+    "record { 4294967294 = 1; 2 }",
+    "(record { 0xFFFFFFFE = 1; 2 })",
+    "record { 4294967294 : nat; text }",
+    "(record { 4294967294 : nat; text })",
+    "type T = record { 4294967294 : nat; text }; service : {}",
+    "type T = record { 4294967294 : nat; text }; (T)",
+    "type T = record { 4294967295 : nat }; (T)",
+    "assert blob \"DIDL\" : (record { 4294967294 : nat; nat })",
+    "assert blob \"DIDL\" : (record { 4294967295 : nat })",
+];
+
+/// A backslash before a non-ASCII character, placed so that entry point i (order of `ENTRIES`)
+/// gets to lex it.
+const UB_WITNESSES: [&str; 7] = [
+    "service : { \"\\é\" : () -> () }",
+    "record { \"\\é\" : nat }",
+    "(record { \"\\é\" : nat })",
+    "(record { \"\\名\" : nat })",
+    "assert \"\\é\" : ()",
+    "(\"\\é\")",
+    "\"\\😀\"",
+];
+
+pub fn run(ctx: &mut Ctx) {
+    if let Ok(h) = std::env::var(CHILD_INPUT) {
+        child_main(ctx, &h);
+        return;
+    }
+    ctx.max_violations = 120;
+    let mut seen = State {
+        seen: HashSet::new(),
+        forks: 0,
+    };
+    ctx.cases("witnesses", 0.02, |ctx, rng| {
+        let local = ctx.case & ((1u64 << 40) - 1);
+        if local == ctx.shard {
+            // the first case of every shard replays all regression witnesses
+            for w in WITNESSES {
+                check_input(ctx, w, "witnesses", &mut seen);
+            }
+            for (e, w) in UB_WITNESSES.iter().enumerate() {
+                // one child per entry point, outside the spawn budget
+                if ctx.shard == 0 {
+                    examine_isolated(ctx, w, "witnesses", &mut seen.seen, Some(e));
+                }
+            }
+            return;
+        }
+        let s = numeral_templates(rng);
+        check_input(ctx, &s, "witnesses", &mut seen);
+    });
+    ctx.cases("token-soup", 0.22, |ctx, rng| {
+        let cap = if rng.chance(1, 5) { 40 } else if ctx.thorough() { 24 } else { 12 };
+        let n = 1 + rng.usize(cap);
+        let toks: Vec<String> = (0..n).map(|_| gen_token(rng)).collect();
+        let s = join(rng, &toks);
+        check_input(ctx, &s, "token-soup", &mut seen);
+    });
+    ctx.cases("valid-sentences", 0.12, |ctx, rng| {
+        let kind = rng.below(7);
+        let toks = sentence(rng, kind);
+        let s = join(rng, &toks);
+        ctx.count(&format!("cover:sentence-kind:{kind}"));
+        check_input(ctx, &s, "valid-sentences", &mut seen);
+    });
+    ctx.cases("one-token-mutants", 0.3, |ctx, rng| {
+        let kind = rng.below(7);
+        let mut toks = sentence(rng, kind);
+        let m = mutate(rng, &mut toks);
+        if rng.chance(1, 5) {
+            mutate(rng, &mut toks);
+        }
+        ctx.count(&format!("cover:mutation:{m}"));
+        let s = join(rng, &toks);
+        check_input(ctx, &s, "one-token-mutants", &mut seen);
+    });
+    ctx.cases("boundary-numerals", 0.1, |ctx, rng| {
+        let s = numeral_templates(rng);
+        check_input(ctx, &s, "boundary-numerals", &mut seen);
+    });
+    ctx.cases("escapes", 0.12, |ctx, rng| {
+        let s = escape_templates(rng);
+        check_input(ctx, &s, "escapes", &mut seen);
+    });
+    ctx.cases("unterminated-and-comments", 0.05, |ctx, rng| {
+        let s = unterminated(rng);
+        check_input(ctx, &s, "unterminated-and-comments", &mut seen);
+    });
+    ctx.cases("deep-nesting", 0.04, |ctx, rng| {
+        let s = deep(rng);
+        check_input(ctx, &s, "deep-nesting", &mut seen);
+    });
+    ctx.cases("character-mutants", 0.03, |ctx, rng| {
+        let kind = rng.below(7);
+        let toks = sentence(rng, kind);
+        let s = join(rng, &toks);
+        let mut cs: Vec<char> = s.chars().collect();
+        for _ in 0..1 + rng.usize(3) {
+            if cs.is_empty() {
+                break;
+            }
+            let i = rng.usize(cs.len());
+            match rng.below(3) {
+                0 => {
+                    cs.remove(i);
+                }
+                1 => cs.insert(i, gen_char(rng)),
+                _ => cs[i] = *rng.pick(&['"', '\\', '0', 'x', 'X', '_', '.', 'e', '-', '{', '}', '(', ')', ';', ':', '=', '/', '*', 'é']),
+            }
+        }
+        let s: String = cs.into_iter().collect();
+        check_input(ctx, &s, "character-mutants", &mut seen);
+    });
+}
